@@ -715,72 +715,3 @@ Proof.
     + by exists (S F).
 Qed.
 
-(** * Non-vacuity: concrete reachable states satisfying every hypothesis of Theorem A *)
-Definition ex_ops1 : list op :=
-  [ NewVar 3 true;                       (* node 0 *)
-    NewVar 4 true;                       (* node 1 *)
-    NewMapN Sum [0%nat; 1%nat];          (* node 2 *)
-    NewCutoff CEq 2%nat;                 (* node 3 *)
-    NewBind [TMap (Aff 1 1) TX;          (* nodes 4 (lhs-change) and 5 (main), over node 3 *)
-             TOuter 3%nat;
-             TBind [TRet 5; TMap2 (Lin2 1 1 0) TX (TCut CEq (TOuter 1%nat))] (TOuter 0%nat)] 3%nat;
-    NewAlways 5%nat;                     (* node 6 *)
-    Observe 6%nat;                       (* observer 7 *)
-    Observe 3%nat;                       (* observer 8 *)
-    Stabilize [] ].
-(* a MapN input added, the bind switches to its first case *)
-Definition ex_ops2 : list op := ex_ops1 ++ [SetVar 0%nat 5; AddInput 2%nat 0%nat; Stabilize []].
-(* a MapN input removed, the bind switches to the case that is itself a bind over an outer node *)
-Definition ex_ops3 : list op := ex_ops2 ++ [SetVar 1%nat 2; RemoveInput 2%nat 0%nat; Stabilize []].
-Definition ex_state (ops : list op) : state :=
-  match run (init 256) ops with Ok s => s | _ => init 0 end.
-
-Definition ex_hyps (s : state) : bool := wfb s && closed s && templates_ok s && consistent s.
-
-(* case 1 selected: the bind returns the outer node 3 (the cutoff over the MapN) *)
-Example ex1_hypotheses_hold : ex_hyps (ex_state ex_ops1) = true.
-Proof. vm_compute. reflexivity. Qed.
-Example ex1_conclusion :
-  let s := ex_state ex_ops1 in
-  obs s !! 7%nat = Some 6%nat /\ valueOf s 6%nat = 7 /\ eval s (next s) 6%nat = Some 7
-  /\ observers_agree s = true.
-Proof. vm_compute. repeat split; reflexivity. Qed.
-
-(* case 0 selected after AddInput *)
-Example ex2_hypotheses_hold : ex_hyps (ex_state ex_ops2) = true.
-Proof. vm_compute. reflexivity. Qed.
-Example ex2_conclusion :
-  let s := ex_state ex_ops2 in
-  obs s !! 7%nat = Some 6%nat /\ valueOf s 6%nat = 4 /\ eval s (next s) 6%nat = Some 4
-  /\ obs s !! 8%nat = Some 3%nat /\ valueOf s 3%nat = 3 /\ eval s (next s) 3%nat = Some 3
-  /\ observers_agree s = true.
-Proof. vm_compute. repeat split; reflexivity. Qed.
-
-(* case 2 selected after RemoveInput: a nested bind whose own case reads an outer node through
-   an equality cutoff *)
-Example ex3_hypotheses_hold : ex_hyps (ex_state ex_ops3) = true.
-Proof. vm_compute. reflexivity. Qed.
-Example ex3_conclusion :
-  let s := ex_state ex_ops3 in
-  obs s !! 7%nat = Some 6%nat /\ valueOf s 6%nat = 7 /\ eval s (next s) 6%nat = Some 7
-  /\ rank s 6%nat = 11%nat /\ next s = 16%nat /\ observers_agree s = true.
-Proof. vm_compute. repeat split; reflexivity. Qed.
-
-(* Theorem A applied to the examples (not by computation) *)
-Example ex3_by_theorem : observers_agree (ex_state ex_ops3) = true.
-Proof.
-  pose proof ex3_hypotheses_hold as H. unfold ex_hyps in H.
-  apply andb_true_iff in H as [H H4]. apply andb_true_iff in H as [H H3].
-  apply andb_true_iff in H as [H1 H2]. exact (C01_observers_agree_proof _ H1 H2 H3 H4).
-Qed.
-
-(** [templates_ok] cannot be dropped: a parity cutoff created inside a bind is history
-    dependent, [evalT] gives it no value, and so a state can be well formed, closed and
-    locally consistent while the observer's value has no from-scratch counterpart. *)
-Definition ex_parity_ops : list op :=
-  [NewVar 3 true; NewBind [TCut CParity TX] 0%nat; Observe 2%nat; Stabilize []].
-Example templates_ok_needed :
-  let s := ex_state ex_parity_ops in
-  wfb s = true /\ closed s = true /\ consistent s = true
-  /\ templates_ok s = false /\ observers_agree s = false.
-Proof. vm_compute. repeat split; reflexivity. Qed.
